@@ -35,7 +35,7 @@ type CaseData struct {
 	Kinds []string `json:"kinds"`
 }
 
-var allKinds = []string{"proxy", "structof", "codec", "smallint", "sweep", "import", "sharedcode", "clone", "mutate"}
+var allKinds = []string{"proxy", "structof", "codec", "smallint", "sweep", "import", "sharedcode", "clone", "mutate", "hammer"}
 
 type Mismatch struct {
 	Class string `json:"class"`
@@ -141,6 +141,11 @@ type job struct {
 	// run performs goroutine g's evaluation(s) for this job with g's own globals and returns the
 	// comparable result lines and the number of evaluations (Eval / EvalCode / Call) made.
 	run func(e *env, g int) ([]string, int)
+	// nondet: the results cannot be compared with a sequential run (random values, clock); only
+	// the race detector, fatal errors and post judge this job
+	nondet bool
+	// post, if set, judges the concurrent results of all goroutines ([g] -> lines) of this job
+	post func(perG [][]string) []Mismatch
 }
 
 // env holds what the evaluations of one phase legitimately share: importers, compiled code, the
@@ -661,6 +666,8 @@ func planJobs(c CaseData) []job {
 				})
 				return append(lines, goState(gl["ctr"])), 1
 			}})
+		case "hammer":
+			jobs = append(jobs, hammerJobs(c, tag)...)
 		case "mutate":
 			mr := mon.NewRand(c.Seed).Split("mutate")
 			stag := tag + "m"
@@ -833,6 +840,27 @@ func worker(kind string, data json.RawMessage) any {
 					o.Mismatches = append(o.Mismatches, Mismatch{Class: "foreign-edit-visible", Kind: jobs[j].kind, Path: jobs[j].path, G: g, Line: i, Conc: l, Seq: "(not applicable: the line itself shows an edit made by another evaluation)"})
 					break
 				}
+				// identical calls of a pure function gave different results inside one evaluation
+				if strings.Contains(l, " INCONSISTENT call ") && len(o.Mismatches) < 20 {
+					o.Mismatches = append(o.Mismatches, Mismatch{Class: "identical-calls-differ", Kind: jobs[j].kind, Path: jobs[j].path, G: g, Line: i, Conc: l, Seq: "(not applicable: the line itself shows two different results of one call)"})
+					break
+				}
+			}
+		}
+	}
+
+	for j := range jobs {
+		if jobs[j].post == nil {
+			continue
+		}
+		perG := make([][]string, N)
+		for g := 0; g < N; g++ {
+			perG[g] = conc[g][j]
+		}
+		for _, m := range jobs[j].post(perG) {
+			if len(o.Mismatches) < 20 {
+				m.Kind, m.Path = jobs[j].kind, jobs[j].path
+				o.Mismatches = append(o.Mismatches, m)
 			}
 		}
 	}
@@ -849,6 +877,9 @@ func worker(kind string, data json.RawMessage) any {
 		}
 		// job-major order so that g0 opens the gate of parent-running before the others wait on it
 		for j := range jobs {
+			if jobs[j].nondet {
+				continue
+			}
 			for g := 0; g < N; g++ {
 				lines, n := jobs[j].run(se, g)
 				res[g][j] = lines
@@ -861,6 +892,9 @@ func worker(kind string, data json.RawMessage) any {
 	var seq2 [][][]string
 	for g := 0; g < N; g++ {
 		for j := range jobs {
+			if jobs[j].nondet {
+				continue
+			}
 			a, b := conc[g][j], seq[g][j]
 			same := len(a) == len(b)
 			if same {
